@@ -718,6 +718,20 @@ theorem partial_then_call (params : List String) (d σ ρ : Dict) (hn : params.N
     cases ρ.lookup p <;> cases σ.lookup p <;> simp
   · rw [if_neg hc, if_neg (fun h => hc (hcond.1 h))]
 
+/-- **a supplied value wins over a value the wrapper already had**: a declared name bound by an (incomplete)
+    partial evaluation — also one that already had a default or was bound by an earlier partial evaluation —
+    reaches the user's function with the NEW value in every later call that does not supply it itself. -/
+theorem partial_override (params : List String) (d σ ρ kw : Dict) (hn : params.Nodup) (hσ : (keys σ).Nodup)
+    (h : call params (setDefaults params d σ) ρ = .ok kw)
+    (p : String) (hp : p ∈ params) (hρ : p ∉ keys ρ) (v : Val) (hv : σ.lookup p = some v) :
+    kw.lookup p = some v := by
+  obtain ⟨_, _, h3⟩ := call_binds params (setDefaults params d σ) ρ kw hn h
+  rw [(h3 p hp hρ).2, lookup_setDefaults params d σ hσ, if_pos hp, hv]
+  rfl
+
+example : (run Heap.empty [.wrapFun 0 ["x", "y", "scale"] [2], .partialEval 0 [("x", 3), ("scale", 4)],
+    .call 1 [("y", 5)]]).2.getLast? = some (.value 0 [("y", 5), ("x", 3), ("scale", 4)]) := by decide
+
 /-- the step-level form: when σ does not bind every required name, `partially_evaluate` returns a NEW
     wrapper (same function, same parameters) whose defaults live in a NEW dict `set_default(σ)` of a copy;
     every existing dict and wrapper stays as it was. -/
